@@ -166,8 +166,35 @@ func (r *c09Rig) setTTL(s *c09Sock, v int) {
 
 func (r *c09Rig) connect(lst, dl *c09Sock) bool {
 	tr := r.sp.Tr
-	if tr == "mix" || tr == "" {
+	switch tr {
+	case "mix", "":
 		tr = []string{"inproc", "inproc", "inproc", "ipc", "ipc", "tcp"}[r.c.Rand.Intn(6)]
+	case "stream", "any": // stream transports only / all six; sockets on 127.0.0.1 sparingly in the long tier
+		x, ip := r.c.Rand.Intn(100), 40
+		if r.c.R.Thorough() {
+			ip = 84
+		}
+		if tr == "any" {
+			ip /= 2
+		}
+		rest := (100 - ip) / 4
+		if tr == "any" {
+			rest = (100 - 2*ip) / 4
+		}
+		switch {
+		case x < ip:
+			tr = "ipc"
+		case x < ip+rest:
+			tr = "tcp"
+		case x < ip+2*rest:
+			tr = "ws"
+		case x < ip+3*rest:
+			tr = "tls+tcp"
+		case x < ip+4*rest:
+			tr = "wss"
+		default:
+			tr = "inproc"
+		}
 	}
 	r.trs = append(r.trs, tr[1:2])
 	if _, _, err := hx.Connect(lst.s, dl.s, tr); err != nil {
